@@ -61,8 +61,8 @@ def run(ctx):
         "the order in which destinations receive one event is not part of the statement (compared as a multiset)",
         "the default clock's reading is compared relationally (between wall-clock readings around the call); the default rng's "
         "output is not compared",
-        "the harness re-boxes the emitter after and_emit_to and the context after map_ctxt through the builder's own map_emitter / "
-        "map_ctxt (a transparent wrapper); the filter's type grows with and_emit_when as in user code",
+        "the emitter's and the filter's types grow with and_emit_to / and_emit_when as in user code; the closures given to "
+        "map_emitter / map_ctxt box their result (a transparent wrapper)",
         "merged by VIEW: two call sequences that build equal values (level A and level B) are continued once",
         "bounded: " + vlib.cfg_header(os.path.join(vlib.SPEC, cfg)),
     ]
